@@ -191,6 +191,45 @@ func init() {
 					fc := fcases[i]
 					runFaults(c, trees[fc.tree], fc.file)
 				}})
+			// ---- the same fault enumeration on generated layout and component trees ----
+			nGen := 60
+			if tier == core.Thorough {
+				nGen = 3000
+			}
+			secs = append(secs, core.Section{Name: "faults-on-generated-trees", N: nGen,
+				Run: func(c *core.Ctx, i int) {
+					var t *tmplTree
+					if i%2 == 0 {
+						t = genLayoutTree(c, 0).tree
+					} else {
+						t = genComponentTree(c, 0).tree
+					}
+					ft := faultTree{files: map[string]string{}, spans: map[string][]model.Span{}, role: map[string]string{}, usedBy: map[string]string{}}
+					var all strings.Builder
+					for name, stmts := range t.files {
+						src, spans := model.StripMarks(model.PrintStmts(stmts, model.Style{Layout: model.SpaceLayout, Marks: true}))
+						ft.files[name+".tw"] = src
+						ft.spans[name+".tw"] = spans
+						all.WriteString(src)
+					}
+					for name := range t.files {
+						role := "page"
+						short := name[strings.LastIndex(name, "/")+1:]
+						if strings.HasPrefix(name, "layouts/") || strings.HasPrefix(name, "shared/") || strings.HasPrefix(name, "components/") || strings.HasPrefix(name, "ui/") {
+							// it only matters to loading when some page names it
+							if strings.Contains(all.String(), "\""+name+"\"") || strings.Contains(all.String(), "\"~"+short+"\"") {
+								role = "used file"
+							}
+						}
+						ft.role[name+".tw"] = role
+					}
+					names := sortedKeys(ft.files)
+					file := names[c.Rng.Intn(len(names))]
+					if i < 2 {
+						c.Sample(map[string]any{"files": describeFiles(ft.files), "faulted_file": file})
+					}
+					runFaults(c, ft, file)
+				}})
 			// ---- EvaluateFile == EvaluateString of the content ----
 			nEq := 1500
 			if tier == core.Thorough {
